@@ -301,18 +301,26 @@ impl Check for C14 {
         let depth = 2 + (index % 2) as u32;
         let p = gen::generate(&mut rng, Cfg::general(depth));
         let name = default_name(&p);
-        let mut vs = vec![Variant { label: "canonical".into(), text: print_with(&p, &name, &all_annot, None, None, None) }];
+        // every other program is printed with its top-level items in a shuffled order (the same order in
+        // all renderings): functions above the globals they read, globals above the functions they call
+        let mut shuffled: Vec<usize> = (0..p.items.len()).collect();
+        rng.shuffle(&mut shuffled);
+        let order: Option<&[usize]> = if index % 2 == 1 { Some(&shuffled) } else { None };
+        if order.is_some() {
+            st.count("programs_with_shuffled_top_level_order");
+        }
+        let mut vs = vec![Variant { label: "canonical".into(), text: print_with(&p, &name, &all_annot, None, None, order) }];
         for k in 0..3 {
             let s = rng.next();
-            vs.push(Variant { label: format!("sugar#{}", k), text: print_with(&p, &name, &all_annot, Some(s), None, None) });
+            vs.push(Variant { label: format!("sugar#{}", k), text: print_with(&p, &name, &all_annot, Some(s), None, order) });
         }
         for k in 0..2 {
             let s = rng.next();
-            vs.push(Variant { label: format!("layout#{}", k), text: print_with(&p, &name, &all_annot, None, Some(s), None) });
+            vs.push(Variant { label: format!("layout#{}", k), text: print_with(&p, &name, &all_annot, None, Some(s), order) });
         }
         let s1 = rng.next();
         let s2 = rng.next();
-        vs.push(Variant { label: "sugar+layout".into(), text: print_with(&p, &name, &all_annot, Some(s1), Some(s2), None) });
+        vs.push(Variant { label: "sugar+layout".into(), text: print_with(&p, &name, &all_annot, Some(s1), Some(s2), order) });
         // census of the forms used
         for v in &vs[1..] {
             st.add("form:prime_calls", v.text.matches("' ").count() as u64 + v.text.matches("'\n").count() as u64 + v.text.matches("')").count() as u64);
